@@ -59,7 +59,7 @@ const closingRounds = 45
 
 func cases(tier string) int {
 	if tier == "thorough" {
-		return 480
+		return 320
 	}
 	return 48
 }
@@ -133,18 +133,20 @@ type exec struct {
 	vaPV           map[string]string
 	forceDetach    bool
 	createCalls    map[string]int
+	goneAt         map[string]time.Time
 
-	calls    []string
-	trace    []string
-	sig      map[string]bool
-	desc     map[string]any
-	curStep  string
-	nodeSnap *corev1.Node // the object handed to the node termination reconcile in flight
+	calls         []string
+	callsClosing  []bool // per fault-free call: made in the closing phase
+	trace         []string
+	sig           map[string]bool
+	desc          map[string]any
+	curStep       string
+	nodeSnap      *corev1.Node // the object handed to the node termination reconcile in flight
 	nodeSnapStale bool
-	flagged  map[types.UID]bool
-	violated bool
-	closing  bool
-	restarts int
+	flagged       map[types.UID]bool
+	violated      bool
+	closing       bool
+	restarts      int
 }
 
 func (x *exec) tr(format string, a ...any) {
@@ -516,9 +518,6 @@ func (x *exec) judgeNode(ev *world.Event, n *corev1.Node) {
 		r.Inc("diag_shortcut_on_stale_not_ready_object_while_store_says_ready")
 	default:
 		key := "node-finalizer-removed-while:" + strings.Join(failed, "+")
-		if !v.InstanceLive && v.Ready {
-			key += ":ready-node-instance-gone"
-		}
 		x.violate(key, fmt.Sprintf("termination finalizer of Node %s (NodeClaim %s) removed by %s while %s (node Ready=%v, instance %s)", n.Name, nc.Name, ev.Caller, strings.Join(failed, ", "), v.Ready, v.InstanceSt), wit)
 	}
 }
@@ -557,6 +556,15 @@ func (x *exec) judgeClaim(ev *world.Event, nc *v1.NodeClaim) {
 		r.Inc("m2_removals_of_never_registered_nodeclaim")
 		if nodes := nodesWithProviderID(x.e.API.Raw, nc.Status.ProviderID); len(nodes) > 0 {
 			r.Inc("m2_removals_of_unregistered_nodeclaim_with_node_object_present_(allowed)")
+			for _, n := range nodes {
+				if _, ok := n.Labels[v1.NodeRegisteredLabelKey]; ok {
+					// registration patched the Node (label, finalizer) but the Registered condition never reached the
+					// NodeClaim (failure / crash in between): finalize does not wait for the Node. The statement keys on
+					// "if it registered" = the persisted condition, so this is a diagnostic only.
+					r.Inc("diag_unregistered_nodeclaim_finalized_while_node_already_carries_registered_label")
+					x.sig["half-registered"] = true
+				}
+			}
 		}
 	}
 	// (b) no live instance for this UID if the provider ever created one
@@ -763,7 +771,7 @@ func (x *exec) kubeletStep(cs *claimSt, act string) {
 		}
 	case "heartbeat":
 		for _, name := range x.nodeNames(cs) {
-			if n := x.node(name); n != nil && instanceRunning(e.Provider, n.Spec.ProviderID) {
+			if n := x.node(name); n != nil && instanceLive(e.Provider, n.Spec.ProviderID) {
 				for i := range n.Status.Conditions {
 					n.Status.Conditions[i].LastHeartbeatTime = metav1.NewTime(e.Clock.Now())
 				}
@@ -800,6 +808,9 @@ func (x *exec) attachDetachStep() {
 		}
 		inUse := false
 		for _, p := range podsOn(x.e.API.Raw, va.Spec.NodeName) {
+			if isTerminal(p) { // volumes of Succeeded / Failed pods are unmounted and detached
+				continue
+			}
 			for _, v := range pvsOf(x.e.API.Raw, p) {
 				if v == pv {
 					inUse = true
@@ -967,15 +978,23 @@ func (x *exec) unblockStep(act string) {
 	}
 }
 
+// allGone: nothing is left to finalize. A Node that still carries the finalizer but is not being deleted while its
+// instance is alive and its NodeClaim is gone is an orphan nobody will ever delete (consequence of a leaked
+// instance): waiting longer changes nothing.
 func (x *exec) allGone() bool {
 	for _, cs := range x.claims {
 		if x.claim(cs.name) != nil {
 			return false
 		}
 		for n := range cs.nodes {
-			if nd := x.node(n); nd != nil && hasFinalizer(nd) {
-				return false
+			nd := x.node(n)
+			if nd == nil || !hasFinalizer(nd) {
+				continue
 			}
+			if nd.DeletionTimestamp == nil && instanceLive(x.e.Provider, nd.Spec.ProviderID) {
+				continue
+			}
+			return false
 		}
 	}
 	return true
@@ -1009,17 +1028,54 @@ func (x *exec) do(i int, st step) {
 	case "U":
 		x.unblockStep(st.Act)
 	}
+	if x.nodeLifecycleActor() {
+		x.snapshotAll()
+		return
+	}
 	switch st.Op {
 	case "K", "D", "W": // harness actors that write Nodes / NodeClaims outside the monitored client
 		x.snapshotAll()
 	}
 }
 
+// nodeLifecycleActor emulates kube-controller-manager's node lifecycle controller: a node whose instance has been
+// gone for 40s of virtual time (no heartbeat any more) stops being Ready. Until then a node that was Ready stays
+// Ready in the API although its instance is gone - the window the Ready guard of the shortcut exists for.
+func (x *exec) nodeLifecycleActor() bool {
+	changed := false
+	now := x.e.Clock.Now()
+	for _, cs := range x.claims {
+		for name := range cs.nodes {
+			n := x.node(name)
+			if n == nil || instanceLive(x.e.Provider, n.Spec.ProviderID) {
+				continue
+			}
+			t, ok := x.goneAt[n.Spec.ProviderID]
+			if !ok {
+				x.goneAt[n.Spec.ProviderID] = now
+				continue
+			}
+			if nodeReady(n) && now.Sub(t) >= 40*time.Second {
+				x.e.KubeletNotReady(name)
+				x.r.Inc("node_lifecycle_controller_marks_not_ready")
+				changed = true
+			}
+			// cloud-controller-manager's node lifecycle controller deletes Node objects whose instance no longer exists
+			// (closing phase only: it is what eventually starts the termination of a Node nobody else deletes)
+			if x.closing && n.DeletionTimestamp == nil && now.Sub(t) >= 90*time.Second {
+				_ = x.e.API.Raw.Delete(bg, n)
+				x.r.Inc("cloud_controller_manager_deletes_node_of_gone_instance")
+				x.tr("cloud-controller-manager deletes Node %s (instance gone)", name)
+				changed = true
+			}
+		}
+	}
+	return changed
+}
+
 // ---- one run ----
 
 func isTarget(verb, _, _ string) bool { return verb != "get" && verb != "list" }
-
-func class(desc string) string { return desc }
 
 func execute(r *mon.Report, sc scen, f *faultSpec) *exec {
 	s, names, tgp, async := build(sc)
@@ -1032,7 +1088,7 @@ func execute(r *mon.Report, sc scen, f *faultSpec) *exec {
 	}
 	e := s.Env
 	x := &exec{r: r, sc: sc, fault: f, e: e, s: s, tgp: tgp, async: async, byUID: map[types.UID]*claimSt{}, hist: map[string]*hist{}, everRegistered: map[types.UID]bool{},
-		createEpoch: map[string]int{}, registeredInst: map[string]bool{}, stuck: map[string]bool{}, vaDetach: map[string]int{}, vaPV: map[string]string{}, createCalls: map[string]int{},
+		createEpoch: map[string]int{}, registeredInst: map[string]bool{}, stuck: map[string]bool{}, vaDetach: map[string]int{}, vaPV: map[string]string{}, createCalls: map[string]int{}, goneAt: map[string]time.Time{},
 		sig: map[string]bool{}, flagged: map[types.UID]bool{}}
 	rs := rand.New(rand.NewSource(sc.ScriptSeed))
 	var plans []claimPlan
@@ -1084,6 +1140,7 @@ func execute(r *mon.Report, sc scen, f *faultSpec) *exec {
 	case f == nil:
 		x.wf = &world.Fault{AtCall: 1 << 30, Kind: "500", Match: func(verb, kind, caller string) bool {
 			x.calls = append(x.calls, verb+":"+kind)
+			x.callsClosing = append(x.callsClosing, x.closing)
 			return true
 		}}
 	case f.Sticky:
@@ -1112,23 +1169,17 @@ func execute(r *mon.Report, sc scen, f *faultSpec) *exec {
 			do(step{Op: "U", Act: "dnd"})
 			do(step{Op: "U", Act: "pdb"})
 		}
-		if round >= 6 {
+		if round >= 24 {
 			x.forceDetach = true
 		}
 		do(step{Op: "A"})
 		for c, cs := range x.claims {
-			if round >= 4 {
-				// the node lifecycle controller marks nodes of vanished instances NotReady
-				for _, name := range x.nodeNames(cs) {
-					if n := x.node(name); n != nil && !instanceLive(e.Provider, n.Spec.ProviderID) && nodeReady(n) {
-						e.KubeletNotReady(name)
-						x.snapshotAll()
-					}
-				}
+			if round%2 == 1 {
+				do(step{Op: "K", C: c, Act: "heartbeat"})
 			}
-			do(step{Op: "L", C: c})
+			do(step{Op: "L", C: c, Stale: []int{0, 0, 1, 0}[round%4]})
 			for k := range x.nodeNames(cs) {
-				do(step{Op: "N", C: c, Pick: k})
+				do(step{Op: "N", C: c, Pick: k, Stale: []int{0, 1, 0, 2}[round%4]})
 			}
 		}
 		x.curStep = fmt.Sprintf("%d:Q*", sn)
@@ -1165,6 +1216,10 @@ func (x *exec) finish() {
 		nodesLeft := 0
 		for n := range cs.nodes {
 			if nd := x.node(n); nd != nil && hasFinalizer(nd) {
+				if nc == nil && nd.DeletionTimestamp == nil && instanceLive(x.e.Provider, nd.Spec.ProviderID) {
+					r.Inc("diag_end_orphan_node_with_finalizer_and_live_instance_never_deleted")
+					continue
+				}
 				nodesLeft++
 			}
 		}
@@ -1202,7 +1257,15 @@ func (x *exec) finish() {
 	if x.async > 0 {
 		x.sig["async-termination"] = true
 	}
-	r.Sig("fault=%s|%s", tgt, strings.Join(common.SortedKeys(x.sig), ","))
+	if x.sig["node-removal"] || x.sig["claim-removal"] || x.sig["unrecorded-id"] {
+		// non-trivial: a finalizer-removing write was judged (or the antecedent of the leak suspicion was reached)
+		r.Sig("fault=%s|%s", tgt, strings.Join(common.SortedKeys(x.sig), ","))
+	} else {
+		r.Inc("runs_without_any_judged_finalizer_removal")
+	}
+	if debugHook != nil {
+		debugHook(x)
+	}
 	r.DistinctAdd("fault_targets", tgt)
 	r.DistinctAdd("scripts", fmt.Sprintf("%d/%d", x.sc.WorldSeed, x.sc.ScriptSeed))
 	if x.fault != nil && fired && r.WantSample() && x.sig["node-full-path"] && x.sig["claim-launched"] && !sampled[x.fault.Kind] {
@@ -1217,6 +1280,9 @@ func (x *exec) finish() {
 
 var sampled = map[string]bool{}
 
+// debugHook (tests only) sees every finished run.
+var debugHook func(x *exec)
+
 func run(r *mon.Report, tier string, idx int, rng *rand.Rand) {
 	sc := scen{Idx: idx, WorldSeed: rng.Int63(), ScriptSeed: rng.Int63()}
 	base := execute(r, sc, nil)
@@ -1230,44 +1296,113 @@ func run(r *mon.Report, tier string, idx int, rng *rand.Rand) {
 	}
 	r.Count("claims_in_scenarios", len(base.claims))
 	r.Count("fault_free_calls_K", len(base.calls))
-	var targets []string
-	for _, c := range base.calls {
-		if isTarget(strings.SplitN(c, ":", 2)[0], "", "") {
-			targets = append(targets, c)
+	// targets = every call except API get/list (provider Get/List included); k indexes into them
+	type tgt struct {
+		k       int
+		desc    string
+		closing bool
+	}
+	var targets, scripted, closing []tgt
+	var reads []int
+	for i, c := range base.calls {
+		if !isTarget(strings.SplitN(c, ":", 2)[0], "", "") {
+			reads = append(reads, i+1)
+			continue
+		}
+		t := tgt{k: len(targets) + 1, desc: c, closing: base.callsClosing[i]}
+		targets = append(targets, t)
+		if t.closing {
+			closing = append(closing, t)
+		} else {
+			scripted = append(scripted, t)
 		}
 	}
 	r.Count("fault_free_target_calls_Kt", len(targets))
-	if tier == "thorough" {
-		for _, kind := range []string{"500", "409", "404", "timeout"} {
-			for k := 1; k <= len(base.calls); k++ {
-				execute(r, sc, &faultSpec{Kind: kind, K: k, Target: base.calls[k-1]})
+	r.Count("fault_free_target_calls_in_scripted_window", len(scripted))
+	sel := targets
+	if tier != "thorough" {
+		// quick: every target call of the scripted window (evenly thinned above 60), every third of the closing phase
+		sel = thin(scripted, 60)
+		var c3 []tgt
+		for i, t := range closing {
+			if i%3 == 0 {
+				c3 = append(c3, t)
 			}
 		}
-	} else {
-		for k := 1; k <= len(targets); k++ {
-			execute(r, sc, &faultSpec{Kind: "500", K: k, Targets: true, Target: targets[k-1]})
-			kind := []string{"409", "404"}[(k+idx)%2]
-			execute(r, sc, &faultSpec{Kind: kind, K: k, Targets: true, Target: targets[k-1]})
+		sel = append(sel, thin(c3, 16)...)
+	}
+	r.Count("fault_points_enumerated", len(sel))
+	for i, t := range sel {
+		execute(r, sc, &faultSpec{Kind: "500", K: t.k, Targets: true, Target: t.desc})
+		execute(r, sc, &faultSpec{Kind: "crash", K: t.k, Targets: true, Target: t.desc})
+		if tier == "thorough" {
+			for _, kind := range []string{"409", "404", "timeout"} {
+				execute(r, sc, &faultSpec{Kind: kind, K: t.k, Targets: true, Target: t.desc})
+			}
+		} else {
+			execute(r, sc, &faultSpec{Kind: []string{"409", "404"}[(i+idx)%2], K: t.k, Targets: true, Target: t.desc})
 		}
 	}
-	for k := 1; k <= len(targets); k++ {
-		execute(r, sc, &faultSpec{Kind: "crash", K: k, Targets: true, Target: targets[k-1]})
+	if tier == "thorough" { // failing API reads
+		for _, k := range reads {
+			execute(r, sc, &faultSpec{Kind: []string{"500", "404"}[k%2], K: k, Target: base.calls[k-1]})
+		}
 	}
 	// permanent errors: every call of one class fails during the whole scripted window
 	seen := map[string]bool{}
 	for _, t := range targets {
-		if seen[t] {
+		if seen[t.desc] {
 			continue
 		}
-		seen[t] = true
-		execute(r, sc, &faultSpec{Kind: "500", Sticky: true, Target: t})
+		seen[t.desc] = true
+		execute(r, sc, &faultSpec{Kind: "500", Sticky: true, Target: t.desc})
 	}
+}
+
+// thin keeps at most n elements, evenly spaced (deterministic).
+func thin[T any](l []T, n int) []T {
+	if len(l) <= n {
+		return l
+	}
+	out := make([]T, 0, n)
+	for i := 0; i < n; i++ {
+		out = append(out, l[i*len(l)/n])
+	}
+	return out
 }
 
 func init() {
 	reg.Register(&reg.Prop{
 		ID: "C09", Level: "fault_enumeration",
-		Rule:  "TODO",
+		Rule:  "each case = one generated scenario: world (catalog, one NodePool with terminationGracePeriod none/20s/45s/2m/10m, hostile provider whose Delete needs 0-3 extra calls before the instance is gone) + 1-2 NodeClaims created through the real Provisioner.Schedule/Create + per claim a plan {stage created/launched/node-appeared/registered/initialized, user deletes the NodeClaim or the Node, transient provider Create error, kubelet registers Ready/NotReady, 2-6 bound pods drawn from drainable/tolerating(4 toleration forms)/static/daemon/do-not-disrupt/PDB-guarded(maxUnavailable 0)/stuck-terminating/stuck-once-evicted/long-terminating(600s)/Succeeded x grace nil/1/5/30/120 x priority class, 40% with a PVC or generic-ephemeral volume + VolumeAttachment detached 0/1/3/8 attach-detach ticks after the pod is gone or never, optional inline attachment, instance vanishes by itself (22%), kubelet stops posting Ready (25%)} + a PRNG-interleaved script per claim: bring-up steps (lifecycle reconcile / kubelet register / ready), workload, deletion, then 22-51 steps drawn from {node termination reconcile 30%, lifecycle reconcile 14%, eviction-queue reconcile 25%, kubelet reap 7%, attach-detach tick 7%, clock step 1s..61s 7%, clock onto the termination deadline -1s/0/+1s 2.5%, kubelet heartbeat 2.5%, user removes do-not-disrupt / PDB 2.5%, late kubelet register / ready 2.5%}; 30% of reconciles get a monotonically stale stored version (1-3 versions old; versions = every After copy of the write log plus actor writes); emulated node-lifecycle controller marks a node NotReady 40s after its instance is gone. Executed once fault-free (K calls enumerated), then per fault point k (quick: every non-read call of the scripted window, thinned above 60, plus every third of the closing phase; thorough: every call) once with error 500, once with a crash point (CrashSentinel recovered at the reconcile boundary, Env.Restart, controllers and eviction queue rebuilt), once with 409 or 404 (thorough: 409, 404 and timeout each, plus 500/404 on every API read), and once per call class with a permanent 500 during the whole scripted window; every run ends with <=45 fault-free closing rounds (reap, unblock, attach-detach, heartbeat, lifecycle + node termination reconciles alternating fresh/stale, queue drain, clock 2/6/31/61s, cloud-controller-manager deletes Nodes of gone instances). One evaluation = one run. Non-trivial = a finalizer-removing write was judged or an antecedent fired; distinct by (fault kind x faulted call class x antecedents/features seen).",
 		Cases: cases, Run: run,
+		MinObserved: map[string]int{
+			"m1_node_finalizer_removals_judged":                                     500,
+			"m1_node_removals_on_full_path_all_preconditions_true":                  500,
+			"m1_node_removals_on_shortcut_not_ready_and_instance_gone":              40,
+			"m1_shortcut_removals_with_drainable_pods_bound":                        40,
+			"m1_full_path_removals_of_ready_node":                                   200,
+			"m1_full_path_removals_with_stuck_terminating_pod_still_bound":          100,
+			"m1_full_path_removals_with_tolerating_pod_still_bound":                 80,
+			"m1_full_path_removals_with_static_pod_still_bound":                     80,
+			"m1_full_path_removals_with_attachment_of_undrainable_pod_present":      100,
+			"m1_full_path_removals_with_blocking_attachment_after_tgp_expired":      60,
+			"m1_passes_that_kept_the_finalizer_while:drainable-pods-present":        1000,
+			"m1_passes_that_kept_the_finalizer_while:blocking-volume-attachments":   1000,
+			"m1_passes_that_kept_the_finalizer_while:instance-live":                 1000,
+			"m1_passes_that_kept_the_finalizer_while:not-cordoned":                  100,
+			"m2_nodeclaim_finalizer_removals_judged":                                1000,
+			"m2_removals_of_registered_nodeclaim":                                   500,
+			"m2_removals_of_never_registered_nodeclaim":                             200,
+			"m2_removals_of_nodeclaim_never_launched":                               20,
+			"m2_removals_with_every_instance_gone":                                  500,
+			"m2_reconciles_ending_with_instance_created_but_provider_id_unrecorded": 50,
+			"lifecycle_reconciles_on_stale_object":                                  500,
+			"node_reconciles_on_stale_object":                                       500,
+			"restarts":                                                              300,
+			"faults_fired:500":                                                      300,
+			"faults_fired:sticky-500":                                               50,
+			"instances_vanished_by_themselves":                                      50,
+		},
 	})
 }
